@@ -123,9 +123,13 @@ class Solver(object):
         if use_solving_under_assumption:
             res = self.solve([formula])
         else:
-            self.add_assertion(formula)
-            res = self.solve()
-            self.pending_pop = True
+            try:
+                self.add_assertion(formula)
+                res = self.solve()
+            finally:
+                # The level pushed above is removed by the next
+                # operation on the stack, also when the query fails
+                self.pending_pop = True
 
         return res
 
